@@ -94,6 +94,10 @@ def rules(ctx, db):
     if any(n.startswith("compio_net::") for n in db.adts):
         from .. import forward
         forward.rule_io_forwarders(ctx, db, "R8", ("compio_net::",), 12)
+    if has_poll(db):
+        ctx.rule("R9", "DIR", "a polling socket op waits for the readiness its system call needs (Readable for recv/accept, Writable for send/connect)")
+        n9 = oc.rule_interest(ctx, db, "R9", want_socket=True)
+        ctx.floor("R9", "polling socket ops with a readiness interest", n9, 20)
 
 
 def check(tier):
